@@ -445,6 +445,18 @@ def coq_stage(run, prop, gen_deps=()):
         res["problems"].append("audit: " + "; ".join(hits[:5]))
     if unt:
         res["ok"] = False
+    if res["ok"] and getattr(run, "tier", "quick") == "thorough":
+        # independent re-check of the compiled cone (kernel-level checker, lists every axiom)
+        with Lock("coq"):
+            rc, out = sh(["coqchk", "-o", "-silent", "-Q", "theories", "HB", f"HB.Properties.{prop}"], cwd=COQ, timeout=1800)
+        m = re.search(r"\* Axioms:\s*(.*?)\n\s*\n", out, re.S)
+        axioms = m.group(1).strip() if m else "?"
+        clean = all(re.search(rf"\* {k}:\s*<none>", out) for k in
+                    ("Constants/Inductives relying on type-in-type", "Constants/Inductives relying on unsafe \\(co\\)fixpoints", "Inductives whose positivity is assumed"))
+        res["coqchk"] = {"rc": rc, "axioms": axioms, "clean": clean}
+        if rc != 0 or axioms != "<none>" or not clean:
+            res["ok"] = False
+            res["problems"].append(f"coqchk: rc={rc} axioms={axioms[:200]} clean={clean}: {out[-300:]}")
     return res
 
 def finish(run, ev_cov, level="proof", assumptions=None):
